@@ -21,7 +21,7 @@ from ..ref import laws as L
 from . import common
 
 ID = "C16"
-RUNS = {"quick": 420, "thorough": 20000}
+RUNS = {"quick": 520, "thorough": 20000}
 TIME = {"quick": 80, "thorough": 1500}
 N1 = {"quick": 3000, "thorough": 4000}
 WALL = 240.0
@@ -123,7 +123,7 @@ def gen_params(rng, model):
 
 def generate(run_seed, tier):
     rng = stream(run_seed, "gen")
-    kind = wchoice(rng, [("F", 60), ("K", 25), ("S", 15)])
+    kind = wchoice(rng, [("F", 60), ("K", 25), ("S", 40)])  # S cases cost one generator call each
     seed = derive(run_seed, "stream") % 10**9
     if kind == "F":
         model = rng.choice(FREQ_MODELS)
@@ -164,7 +164,7 @@ def generate(run_seed, tier):
         case["offset"] = rng.choice([0.0, 1e3, 1e6, 1e8, 1e8])
         # candidates on a coarse grid: co-located candidates are exactly equidistant from every voter (either order is legal,
         # leaving one of them off the ballot is not)
-        case["grid"] = rng.random() < 0.15
+        case["grid"] = rng.random() < 0.25
     if model == "ClusteredSpatial":
         per = [rng.randint(0, 30) for _ in cands]
         if sum(per) == 0:
